@@ -15,7 +15,7 @@ LEXER_BOUNDED = ('sub-lexer contracts found_ok for lex_spaces/lex_tabs/lex_newli
 PROPS = {
     'C01': dict(
         level='proof',
-        verus=['span', 'patterns', 'lexing', 'url', 'jsdoc', 'edit_distance', 'mask', 'document'],
+        verus=['span', 'patterns', 'lexing', 'url', 'jsdoc', 'edit_distance', 'mask', 'mask_parser', 'document'],
         kani_quick=['lexing.whitespace_5', 'jsdoc.parse_inline_tag_4', 'jsdoc.parse_inline_tag_5'],
         rac=['lexers', 'url_scanner', 'document_tiles', 'remove_indices', 'condense_indices', 'markdown_tokens', 'comment_frontends', 'lhs_frontend', 'typst_frontend'],
         kani_thorough=['lexing.whitespace_5', 'lexing.whitespace_8', 'lexing.hostname_4', 'lexing.url_4',
@@ -34,7 +34,7 @@ PROPS = {
     ),
     'C02': dict(
         level='proof',
-        verus=['lexing', 'url', 'number', 'mask', 'document'],
+        verus=['lexing', 'url', 'number', 'mask', 'mask_parser', 'document'],
         kani_quick=['lexing.whitespace_5'],
         kani_thorough=['lexing.whitespace_5', 'lexing.whitespace_8', 'lexing.hostname_4', 'lexing.url_4'],
         rac=['lexers', 'url_scanner', 'document_tiles', 'remove_indices', 'condense_indices', 'markdown_tokens'],
@@ -130,6 +130,18 @@ PROPS = {
             'the language-server command and the harper-wasm export/import wrappers; edits other than inserting a paragraph before / appending one after the text',
         ],
         assumptions=['"differs in message, kind, suggestions or surrounding words" is read as: a lint hidden together with the ignored one must agree with it in kind, message, suggestions and flagged text'],
+    ),
+    'C04': dict(
+        level='exploration',
+        verus=['mask', 'mask_parser'], kani_quick=[], kani_thorough=[],
+        rac=['prose_offsets'],
+        unverified=[
+            'BOUNDED ONLY for the front-ends themselves: tree-sitter node selection + byte_spans_to_char_spans, the comment parsers (Unit / JsDoc / JavaDoc / Go), the Markdown byte/char bookkeeping wrap external parsers and are str-byte / split / closure code; PROVED are only the composition step parsers::Mask<M,P>::parse (tokens shifted into their chunk, in order, nothing outside the allowed spans emitted as text - given the Masker and inner-Parser contracts) and the mask operations push_allowed / merge_whitespace_sep',
+            'HTML, Typst, Literate Haskell, git-commit front-ends and the other 15 tree-sitter languages are not in the prose-offset check (Typst / LHS have crash-and-order checks under C01)',
+            'files beyond the segment grammar of the check (3 of <=14 segments per language)',
+        ],
+        assumptions=['the ground truth is known by construction of the generated files (segments with declared prose words), not from a second parser',
+                     'adjacent comments separated only by white space are one comment block (merge_whitespace_sep), so an ignore marker drops the whole block: the marker segment is fenced by code'],
     ),
     'C06': dict(
         level='exploration', verus=[], kani_quick=[], kani_thorough=[],
